@@ -54,6 +54,8 @@ class CHECK(Check):
                 out.append((d, 's0e', s))
             for s in pairs:
                 out.append((d, 's0p', s))
+            for s in f.s0_triples(exclude=pairs):
+                out.append((d, 's0t', s))
             for kind, s in f.s1():
                 out.append((d, kind, s))
             # lexeme deviations on production-pair sentences
@@ -154,7 +156,7 @@ class CHECK(Check):
         st = sum(len(f.ex['states']) for f in self.fams.values()) + sum(len(f.ex['states']) for f in self.fams2.values())
         tr = sum(f.ex['edges'] for f in self.fams.values()) + sum(f.ex['edges'] for f in self.fams2.values())
         return {'exhaustive': True, 'states': st, 'transitions': tr, 'traces_validated_against_impl': agg['n'],
-                'rule': 'S0 edge+pair cover, S1 (insert/replace every terminal, delete, truncate at every abstract state), lexeme respellings, '
+                'rule': 'S0 edge+pair+triple (P,i,C,j,D) cover, S1 (insert/replace every terminal, delete, truncate at every abstract state), lexeme respellings, '
                         'all token pairs, all strings of length<=3 over the character alphabet, size ladder, pumping family (19 openers x units of length<=2 over 16 characters x N in 16, 64, open and closed); distinct_nontrivial = '
                         'distinct (dialect, accepted text) or (dialect, error header, last message line)',
                 'char_alphabet': CHARS if self.tier == 'thorough' else CHARS[:30] + ['é']}
